@@ -71,7 +71,7 @@ partial def showVal (gz : Gz) (depth : Nat) : Val → String × Nat × Nat
       (s :: acc.1, acc.2.1 + k, acc.2.2 + g)) ([], 0, 0)
     ("[" ++ ",".intercalate strs.reverse ++ "]", k, g)
 
-def decoderOf (name : String) (version : Int) : Option (Rd Val) :=
+def decoderOf [HasMeasure] (name : String) (version : Int) : Option (Rd Val) :=
   match name with
   | "api_versions" => some decodeApiVersions
   | "produce" => some (decodeProduce version)
@@ -144,6 +144,24 @@ def step (st : Unit) (line : String) : Unit × List String :=
           let (s, k2, g) := showVal (gzOf tab) depth v
           (st, [s!"value {s}", s!"cost {k + k2} gz {g}"])
     | _, _, _, _ => (st, ["bad-op"])
+  -- the memory side: the same decoder charged the bytes it slices
+  | ["deca", name, version, hex] => match version.toInt?, parseHex hex with
+    | some version, some d =>
+      match @decoderOf bytesMeasure name version with
+      | none => (st, ["bad-op"])
+      | some m => (st, [s!"alloc {(run m d).cost}"])
+    | _, _ => (st, ["bad-op"])
+  | "decseta" :: depth :: hex :: gzs => match depth.toNat?, parseOptHex hex, gzs.mapM parseGz with
+    | some depth, some d, some tab =>
+      let r := @decodeSetOpt bytesMeasure (gzOf tab) depth d
+      (st, [s!"alloc {r.cost} gz {r.gz}"])
+    | _, _, _ => (st, ["bad-op"])
+  | ["mon-alloc", len, bytes] => match len.toNat?, bytes.toNat? with
+    | some len, some bytes => (st, [if allocOk len bytes then "ok" else "fail"])
+    | _, _ => (st, ["bad-op"])
+  | ["mon-setalloc", len, gz, bytes] => match len.toNat?, gz.toNat?, bytes.toNat? with
+    | some len, some gz, some bytes => (st, [if setAllocOk len gz bytes then "ok" else "fail"])
+    | _, _, _ => (st, ["bad-op"])
   -- both models (this package's and the wire package's) on the same bytes
   | "xdec" :: name :: version :: depth :: hex :: gzs =>
     match version.toInt?, depth.toNat?, parseHex hex, gzs.mapM parseGz with
